@@ -27,6 +27,7 @@ from fvmon.observe import snap_values
 from fvmon.taps import OpCounter
 
 SPEC = {
+    "anchors": ["fibertree.core.metrics:Metrics.beginCollect", "fibertree.core.metrics:Metrics.endCollect", "fibertree.core.metrics:Metrics.incCount", "fibertree.core.metrics:Metrics.registerRank", "fibertree.core.metrics:Metrics.trace", "fibertree.core.payload:Payload.__mul__", "fibertree.core.payload:Payload.__iadd__", "fibertree.core.iterators:iterRange", "fibertree.core.iterators:__and__", "fibertree.core.iterators:__lshift__", "fibertree.model.compute:Compute.numOps", "fibertree.model.compute:Compute.numIters"],
     "rule": ("case = one kernel from the C06 family (random operand values incl. empty operands, optional tiling, "
              "either intersection style, any loop order) + a subset of (rank, trace type) registrations + a sequence "
              "of 0-4 earlier sessions of 5 kinds.  Non-trivial = the kernel executes at least 2 leaf bodies with "
